@@ -263,6 +263,18 @@ theorem C06_ascii_bytes_pinned_refuted (fmt : Int → Str) :
   refine ⟨rfl, rfl, rfl, rfl, ?_, fun _ => rfl⟩
   intro v; cases v <;> rfl
 
+/-- non-vacuity of `C06_ascii_prints_strings`: a String array held as bytes (dtype S) with an empty string -/
+def dsS : Dataset := ⟨cs!"d", [.base { name := cs!"t", ty := cs!"String", shape := [3], dims := [],
+                                       data := [.str cs!"one", .str [], .str cs!"c d"], srep := .bytes }]⟩
+
+example : ∀ s ∈ [cs!"one", [], cs!"c d"], ∀ c ∈ s, c.toNat < 128 := by decide
+example : respond intText dsS cs!"ascii" cs!"t[0:1]" = .ok .ascii (.complete
+    (cs!"Dataset {\n    String t[t = 2];\n} d;\n" ++ dashes ++ cs!"t\n[0] \"one\"\n[1] \"\"\n\n")) := by
+  decide +kernel
+example : (constrained dsS cs!"t[0:1]").toOption.map payload
+    = some [0,0,0,2, 0,0,0,3, 111,110,101,0, 0,0,0,0] := by
+  decide +kernel
+
 /-- a byte outside ASCII in a `bytes` element is printed as its `\xhh` escape (`backslashreplace`), never raised on -/
 example : encode intText .bytes (.str [Char.ofNat 0xE9, 'a']) = cs!"\"\\xe9a\"" := by decide
 
